@@ -64,6 +64,9 @@ M = "filters::network::NetworkFilterMask::"
 def check(run):
     for cfg in run.cfgs("A", "B"):
         F = run.facts(cfg)
+        from analysis.guards import rule_visits_all as _rva
+        run.guard("C03.9.every-entry", cfg, lambda: _rva(run, "C03.9.every-entry", F, cfg, ['filters::abstract_network::parse_filter_options', 'filters::network::NetworkFilter::parse'],
+                  'Every option of a rule and every entry of its domain= list restricts (or widens) where the rule applies: an entry that is not reached is an option that is not enforced', minimum=3))
         run.guard("C03.1.option-chain", cfg, lambda: rule_chain(run, F, cfg))
         run.guard("C03.2.bit-layout", cfg, lambda: rule_bits(run, F, cfg))
         run.guard("C03.3.check_options-table", cfg, lambda: rule_check_options(run, F, cfg))
@@ -80,6 +83,8 @@ def check(run):
         b2 = run.borrow("C08", only=r"NetworkFilter\.(mask|opt_domains|opt_not_domains|opt_domains_union|opt_not_domains_union)\b",
                         why="the option fields must survive serialize/deserialize unchanged")
         run.guard("C03.via.C08.1.state-coverage", cfg, lambda: _C08.rule_coverage(b2, F, cfg))
+        b2p = run.borrow("C08", only=r"NetworkFilterV0", why="the included and the excluded domain sets (and their unions) have the same type: only their position on the wire tells them apart")
+        run.guard("C03.via.C08.2.positional", cfg, lambda: _C08.rule_positional(b2p, F, cfg))
 
 
 def option_arms(F):
